@@ -88,8 +88,8 @@ func (r *Run) Violate(f Finding) {
 	r.Findings = append(r.Findings, f)
 }
 
-func (r *Run) Count(name string, n int)  { r.Counts[name] += n }
-func (r *Run) Floor(name string, n int)  { r.Floors[name] = n }
+func (r *Run) Count(name string, n int) { r.Counts[name] += n }
+func (r *Run) Floor(name string, n int) { r.Floors[name] = n }
 func (r *Run) Sample(v any) {
 	if len(r.Samples) < 12 {
 		r.Samples = append(r.Samples, v)
@@ -156,7 +156,16 @@ func (r *Run) Finish(verifDir string) int {
 	}
 	evDir := filepath.Join(verifDir, "evidence")
 	_ = os.MkdirAll(filepath.Join(evDir, "replay"), 0o755)
+	// stale replay files of earlier runs must not be mistaken for current findings
+	if old, _ := filepath.Glob(filepath.Join(evDir, "replay", r.Property+"-*.json")); len(old) > 0 {
+		for _, o := range old {
+			_ = os.Remove(o)
+		}
+	}
 	for _, f := range listed {
+		if os.Getenv("VERIF_KEYS") != "" {
+			fmt.Printf("KEY %s\n", f.Key())
+		}
 		fmt.Printf("KNOWN-FINDING: property=%s %s %s: %s [%s]\n", r.Property, f.Rule, f.Site, f.Message, f.Pos)
 	}
 	for i, f := range fresh {
